@@ -7,6 +7,7 @@ import (
 
 	"github.com/gordian-engine/gordian/tm/tmconsensus"
 	"github.com/gordian-engine/gordian/tm/tmengine/internal/tmmirror"
+	"github.com/gordian-engine/gordian/tm/tmengine/internal/tmstate"
 )
 
 // The Mirror follows the state of the active validators on the network,
@@ -30,19 +31,26 @@ func NewMirror(ctx context.Context, log *slog.Logger, opts ...Opt) (Mirror, erro
 	// Note that we never start the Engine we instantiate.
 	var e Engine
 
+	// Many options also write to the state machine's configuration.
+	// A standalone mirror has no state machine,
+	// so those settings are collected in a value that is discarded.
+	var smCfg tmstate.StateMachineConfig
+
 	var err error
 	for _, opt := range opts {
-		err = errors.Join(opt(&e, nil))
+		err = errors.Join(err, opt(&e, &smCfg))
 	}
 	if err != nil {
 		return nil, err
 	}
 
 	cfg := e.mCfg
-	cfg.InitialHeight = e.genesis.InitialHeight
-	cfg.InitialValidatorSet = e.genesis.GenesisValidatorSet
+	if e.genesis != nil {
+		cfg.InitialHeight = e.genesis.InitialHeight
+		cfg.InitialValidatorSet = e.genesis.GenesisValidatorSet
+	}
 
-	if err := validateMirrorSettings(cfg); err != nil {
+	if err := validateMirrorSettings(e.genesis, cfg); err != nil {
 		return nil, err
 	}
 
@@ -54,8 +62,19 @@ func NewMirror(ctx context.Context, log *slog.Logger, opts ...Opt) (Mirror, erro
 	return m, nil
 }
 
-func validateMirrorSettings(cfg tmmirror.MirrorConfig) error {
+func validateMirrorSettings(g *tmconsensus.ExternalGenesis, cfg tmmirror.MirrorConfig) error {
 	var err error
+
+	if g == nil {
+		err = errors.Join(err, errors.New("no genesis set (use tmengine.WithGenesis)"))
+	} else {
+		if g.InitialHeight == 0 {
+			err = errors.Join(err, errors.New("genesis initial height must not be zero (check tmengine.WithGenesis)"))
+		}
+		if len(g.GenesisValidatorSet.Validators) == 0 {
+			err = errors.Join(err, errors.New("genesis validator set is empty (check tmengine.WithGenesis)"))
+		}
+	}
 
 	if cfg.Store == nil {
 		err = errors.Join(err, errors.New("no mirror store set (use tmengine.WithMirrorStore)"))
@@ -72,8 +91,6 @@ func validateMirrorSettings(cfg tmmirror.MirrorConfig) error {
 		err = errors.Join(err, errors.New("no validator store set (use tmengine.WithValidatorStore)"))
 	}
 
-	// TODO: validate InitialHeight and InitialValidators?
-
 	if cfg.HashScheme == nil {
 		err = errors.Join(err, errors.New("no hash scheme set (use tmengine.WithHashScheme)"))
 	}
@@ -82,6 +99,11 @@ func validateMirrorSettings(cfg tmmirror.MirrorConfig) error {
 	}
 	if cfg.CommonMessageSignatureProofScheme == nil {
 		err = errors.Join(err, errors.New("no common message signature proof scheme set (use tmengine.WithCommonMessageSignatureProofScheme)"))
+	}
+
+	// The mirror kernel registers itself with the watchdog when it starts.
+	if cfg.Watchdog == nil {
+		err = errors.Join(err, errors.New("no watchdog set (use tmengine.WithWatchdog)"))
 	}
 
 	return err
